@@ -927,6 +927,7 @@ def _reduce_minmax(I, arr, which):
     I.axiom(f"def:{which}", z3.And(inrange(j), V.rterm(fn(j)) == m))
     res = SReal(m)
     res.witness = j
+    I.ghost.setdefault("reductions", []).append((which, m, j))
     return res
 
 
@@ -1245,6 +1246,7 @@ def install(I):
     install_bytes(I)
     install_numpy_scalars(I)
     install_numpy2(I)
+    install_numpy3(I)
 
 
 # ================================================================== symbolic-length lists (z3 sequences)
@@ -1481,6 +1483,7 @@ def install_numpy2(I):
             I.axiom(f"def:{which}", z3.And(j >= 0, j < n))
             I.axiom(f"def:{which}", z3.ForAll([i], z3.Implies(z3.And(i >= 0, i < n), better(fj, V.rterm(fn(i))))))
             I.axiom(f"def:{which}-first", z3.ForAll([i], z3.Implies(z3.And(i >= 0, i < j), strictly(fj, V.rterm(fn(i))))))
+            I.ghost.setdefault("arg_reductions", []).append((which, j, fn, n))
             return SInt(j)
         return f
     L["numpy.argmin"] = arg_extreme("argmin")
@@ -1495,3 +1498,28 @@ def install_numpy2(I):
     L["numpy.zeros"] = np_zeros
     L["numpy.arange"] = lambda I, n: SArray(n, lambda i: SInt(i), "int")
     L["numpy.uint8"] = Opaque("dtype")
+
+
+def install_numpy3(I):
+    L = I.lib
+    SIN = z3.Function("u_sin", z3.RealSort(), z3.RealSort())
+    COS = z3.Function("u_cos", z3.RealSort(), z3.RealSort())
+
+    def ew(fun):
+        def g(I, x):
+            f = lambda v: SReal(fun(V.rterm(v)), V.nanflag(v))
+            if A.is_arraylike(x):
+                return A.elementwise(I, f, x)
+            return f(x)
+        return g
+    L["numpy.sin"] = ew(SIN)
+    L["numpy.cos"] = ew(COS)
+
+    def linspace(I, start, stop, num=50, endpoint=True, **k):
+        if not endpoint or k:
+            raise Unsupported("linspace variant")
+        n = V.iterm(num)
+        a, b = V.rterm(start), V.rterm(stop)
+        # x[i] = start + i (stop-start)/(n-1); a single point is `start`
+        return SArray(num, lambda i: SReal(z3.If(n > 1, a + z3.ToReal(i) * (b - a) / z3.ToReal(n - 1), a)), "real")
+    L["numpy.linspace"] = linspace
